@@ -202,6 +202,8 @@ def run(P: Program, R: Report, tier: str) -> None:
     shortcut_condition(P, R)
     # ---- R13.5 each frame is relabelled with a mapping built for THAT frame only
     frame_local_lookup(P, R, P.func_named("relabel_segmentation"), "R13.5")
+    # ---- R13.6 the frames of a per-file segmentation are read in time order
+    frames_in_numeric_order(P, R, "R13.6")
 
 
 def frame_local_lookup(P: Program, R: Report, f: FuncInfo, rule: str) -> None:
@@ -345,3 +347,42 @@ def shortcut_condition(P: Program, R: Report) -> None:
         R.check(len(good) == 1 and len(eq_calls) == 1, "R13.4", h, s, "relabelling is skipped only when seg ids and node ids agree position by position",
                 f"path condition of the relabel call involves {[sorted(e[1]) for e in eq_calls] or 'no array_equal test'} (negated: {[e[0] for e in eq_calls]}): "
                 "a permuted assignment over the same values could skip relabelling", via="guard-shape")
+
+
+def frames_in_numeric_order(P: Program, R: Report, rule: str) -> None:
+    """A segmentation given as a folder with one image per time point is stacked in the order of the file listing.
+    Plain string order puts frame_10 before frame_2, so every node from frame 2 on is relabelled from another frame's
+    pixels.  The listing is sorted with a key that compares digit runs as numbers."""
+    fns = [f for f in P.functions.values() if f.name == "magic_imread" and f.parent is None]
+    if not fns:
+        R.undecided(rule, "magic_imread", "", "per-frame image files are stacked in numeric order", "reader not found")
+        return
+    f = fns[0]
+    n = 0
+    for c in ast.walk(f.node):
+        if not (isinstance(c, ast.Call) and call_name(c) in ("sorted", "sort")):
+            continue
+        src = norm(c.args[0]) if c.args else norm(c.func.value) if isinstance(c.func, ast.Attribute) else ""
+        if "glob" not in src and "listdir" not in src and "iterdir" not in src and "dir_contents" not in src:
+            continue
+        n += 1
+        key = next((k.value for k in c.keywords if k.arg == "key"), None)
+        ok = None
+        if key is None:
+            ok = False
+        elif isinstance(key, ast.Name):
+            kf = P.functions.get(P.resolve_name(f.module, key.id) or "")
+            if kf is not None:
+                body = norm(kf.node)
+                ok = "int(" in body and ("isdigit" in body or "re.split" in body or "findall" in body)
+        elif isinstance(key, ast.Lambda):
+            body = norm(key.body)
+            ok = True if "int(" in body else None
+        if ok is None:
+            R.undecided(rule, f, c, "per-frame image files are stacked in numeric order", f"sort key `{norm(key)[:50]}` not recognised")
+        else:
+            R.check(ok, rule, f, c, "per-frame image files are stacked in numeric order",
+                    f"`{norm(c)[:80]}` sorts the file names as plain strings: frame_10 comes before frame_2, the stack is out of time order and each node is "
+                    "relabelled from the pixels of another frame", via="syntax")
+    if n == 0:
+        R.undecided(rule, f, f.node, "per-frame image files are stacked in numeric order", "no sorted directory listing found")
